@@ -478,9 +478,10 @@ def eval_layout(ev):
         lay = L._gate_sequences[i]
         ev.n(si)
         want_q = uniq(parks + [q for g in gates for q in g])
-        if [qid(q) for q in lay.qubit_ids] != want_q:
-            ev.fail("GateSequenceLayer.qubit_ids:differs-from-fields", "parked then gated qubits, first occurrences", fg,
-                    {"layout": name, "index": i}, observed=[qid(q) for q in lay.qubit_ids], required=want_q)
+        got_q = [qid(q) for q in lay.qubit_ids]
+        if sorted(got_q) != sorted(want_q):
+            ev.fail("GateSequenceLayer.qubit_ids:differs-from-fields", "all parked and all gated qubits of the layer, each once", fg,
+                    {"layout": name, "index": i}, observed=got_q, required=want_q)
         ev.n(si)
         if ms(raw_edge(e) for e in lay.edge_ids) != ms({frozenset(g) for g in gates}) or \
                 [qid(o.identifier) for o in lay.park_operations] != parks or [raw_edge(o.identifier) for o in lay.gate_operations] != gates:
@@ -493,30 +494,19 @@ def eval_layout(ev):
                     got = raw_layer(L.get_gate_sequence_from_element(E(a, b)))
                 except Exception as ex:  # noqa
                     got = "raises %s" % type(ex).__name__
-                if got != (gates, parks):
+                if isinstance(got, str) or frozenset((a, b)) not in {frozenset(x) for x in got[0]}:
                     ev.fail("GenericSurfaceCode.get_gate_sequence_from_element:wrong-layer",
-                            "the layer that plays an edge is found for either orientation of the edge", fg,
+                            "a layer that plays the edge is found for either orientation of the edge", fg,
                             {"layout": name, "edge": [a, b], "layer": i}, observed=got, required=[gates, parks])
                 ev.n(si)
                 if not (lay.contains(E(a, b)) and lay.contains(Q(a))):
                     ev.fail("GateSequenceLayer.contains:misses-member", "contains() finds gates (either orientation) and qubits", fg,
                             {"layout": name, "edge": [a, b], "layer": i})
     ev.n(si)
-    try:
-        L.get_gate_sequence_at_index(len(layers))
-        got = "returns"
-    except ce.ElementNotIncludedException:
-        got = "ElementNotIncludedException"
-    except Exception as ex:  # noqa
-        got = "raises %s" % type(ex).__name__
-    if got != "ElementNotIncludedException":
-        ev.fail("GenericSurfaceCode.get_gate_sequence_at_index:out-of-range-not-rejected", "index == count is rejected", fg,
-                {"layout": name}, observed=got, required="ElementNotIncludedException")
-    ev.n(si)
     want = uniq([q for gates, parks in layers for q in parks + [x for g in gates for x in g]])
     got = [qid(q) for q in L.involved_qubit_ids]
-    if got != want:
-        ev.fail("GenericSurfaceCode.involved_qubit_ids:differs-from-tables", "all qubits parked or gated in some layer", fg,
+    if sorted(got) != sorted(want):
+        ev.fail("GenericSurfaceCode.involved_qubit_ids:differs-from-tables", "all qubits parked or gated in some layer, each once", fg,
                 {"layout": name}, observed=got, required=want)
     ev.n(si)
     got = (sorted(qid(q) for q in L.data_qubit_ids), sorted(qid(q) for q in L.ancilla_qubit_ids))
@@ -548,6 +538,20 @@ def build_derived(L, involved, index_map, refocusing=True):
         kw["qubit_index_map"] = {Q(q): int(i) for q, i in index_map.items()}
     return cc.RepetitionCodeDescription.from_connectivity(
         involved_qubit_ids=[Q(q) for q in involved], connectivity=L, qubit_refocusing=refocusing, **kw)
+
+
+_BASE_CACHE = {}
+
+
+def cached_derived(layout_name, L, involved):
+    """default-map description of a subset, built once per worker and shared by the composites over it
+    (descriptions are frozen; a composite only reads its base)"""
+    k = (layout_name, tuple(involved))
+    if k not in _BASE_CACHE:
+        if len(_BASE_CACHE) > 64:
+            _BASE_CACHE.clear()
+        _BASE_CACHE[k] = build_derived(L, involved, None)
+    return _BASE_CACHE[k]
 
 
 def check_index_layer(ev, who, function, d, i, gates, parks, req, K, inv, m, si):
@@ -683,25 +687,22 @@ def eval_derived(ev):
     m = check_index_map(ev, who, f, d, K, sup, si)
     ev.n(si)
     try:
-        roles = (set(qid(q) for q in d.data_qubit_ids), set(qid(q) for q in d.ancilla_qubit_ids))
+        roles = [sorted(qid(q) for q in d.data_qubit_ids), sorted(qid(q) for q in d.ancilla_qubit_ids)]
     except Exception as ex:  # noqa
         roles = "raises %s" % type(ex).__name__
-    if roles != ({q for q in inv if q in DATA}, {q for q in inv if q in ANC}):
-        ev.fail("%s:data-ancilla-roles-differ-from-layout" % who, "data / ancilla qubits of the description are the involved data / ancilla qubits of the layout",
-                f, {}, observed=str(roles), required=str(({q for q in inv if q in DATA}, {q for q in inv if q in ANC})))
+    want_roles = [sorted(q for q in inv if q in DATA), sorted(q for q in inv if q in ANC)]
+    if roles != want_roles:
+        ev.fail("%s:data-ancilla-roles-differ-from-layout" % who,
+                "data / ancilla qubits of the description are the involved data / ancilla qubits of the layout, each once",
+                f, {}, observed=roles, required=want_roles)
     if m is not None:
         for i, (gates, parks) in enumerate(layers):
             ok = all(frozenset(g) in EDGES for g in expected[i]) and len({q for g in expected[i] for q in g}) == 2 * len(expected[i])
-            req = set(required_parks(expected[i])) if ok else set()
+            # parks that MUST show up as indices: required by my oracle AND declared by the layer (a missing declaration
+            # is reported by the layer clause under its own class)
+            req = {q for q in (required_parks(expected[i]) if ok else {}) if q in parks}
             check_index_layer(ev, "IRepetitionCodeDescription", "IRepetitionCodeDescription.get_gate/park_sequence_indices",
                               d, i, expected[i], parks, req, set(K), invs, m, si)
-        ev.n(si)
-        try:
-            if d.gate_sequence_count != len(src) or d.get_gate_sequence_indices(len(src)) is not None or d.get_park_sequence_indices(len(src)) is not None:
-                raise ValueError("not None")
-        except Exception as ex:  # noqa
-            ev.fail("IRepetitionCodeDescription.get_gate_sequence_indices:out-of-range-not-None", "index == layer count gives None",
-                    "IRepetitionCodeDescription.get_gate/park_sequence_indices", {}, observed=str(ex), required=None)
 
 
 def eval_composite(ev):
@@ -729,12 +730,12 @@ def eval_composite(ev):
     if imap is None:
         imap = {q: i for i, q in enumerate(union)}
     try:
-        base = build_derived(L, base_inv, None)
+        base = cached_derived(name, L, base_inv)
         kw = {}
         if lead_gate is not None:
-            kw["_leading_gate_description"] = build_derived(L, lead_gate, None)
+            kw["_leading_gate_description"] = cached_derived(name, L, lead_gate)
         if lead_ro is not None:
-            kw["_leading_readout_description"] = build_derived(L, lead_ro, None)
+            kw["_leading_readout_description"] = cached_derived(name, L, lead_ro)
         c = cc.CompositeRepetitionCodeDescription(
             _base_description=base, _qubit_index_map={Q(q): int(i) for q, i in imap.items()}, _connectivity=L,
             _exclude_readout_qubit_ids=[Q(q) for q in rec.get("ex_readout", [])],
@@ -789,8 +790,9 @@ def eval_composite(ev):
                         {q: int(v) for q, v in imap.items()}, si)
     if m is not None:
         idx_layers = range(len(layers))
-        if only_req:   # every access recomputes the dynamic parking of all layers: observe one layer (chosen by the input)
-            idx_layers = [int(digest(rec), 16) % len(layers)] if layers else []
+        if only_req:   # every access recomputes the dynamic parking of all layers: observe one layer of every 3rd input
+            h = int(digest(rec), 16)
+            idx_layers = [(h // 3) % len(layers)] if layers and h % 3 == 0 else []
         for i in idx_layers:
             gates, parks = layers[i]
             ok = all(frozenset(g) in EDGES for g in expected[i]) and len({q for g in expected[i] for q in g}) == 2 * len(expected[i])
@@ -863,10 +865,9 @@ def composite_records(layout, base, rnd, thorough, src_layers):
     add(only_required=True)
     for k, g in enumerate(kept):
         for flip in ((False, True) if thorough or k == 0 else (bool(rnd.getrandbits(1)),)):
-            e = list(g[::-1] if flip else g)
-            add(ex_edges=[e], only_required=False)
-            if thorough or rnd.random() < 0.35:
-                add(ex_edges=[e], only_required=True)
+            add(ex_edges=[list(g[::-1] if flip else g)], only_required=False)
+        if thorough or rnd.random() < 0.35:
+            add(ex_edges=[list(g[::-1] if rnd.getrandbits(1) else g)], only_required=True)
     for q in base:
         add(ex_gate_qubits=[q], only_required=False)
         if thorough and rnd.random() < 0.5:
@@ -902,7 +903,7 @@ def enumerate_records(tier, seed):
                     recs.append({"kind": "derived", "layout": n, "involved": dw})
     # 2. small sizes exhaustively: every ORDERED tuple of distinct qubits up to size k_ord, every layout for size <= 2,
     #    rotating layout above
-    k_ord = 4 if thorough else 3
+    k_ord = 3
     cnt = 0
     for k in range(0, k_ord + 1):
         for tup in itertools.permutations(QUBITS, k):
@@ -910,6 +911,9 @@ def enumerate_records(tier, seed):
             cnt += 1
             for n in names:
                 recs.append({"kind": "derived", "layout": n, "involved": list(tup)})
+    if thorough:   # random ordered tuples of the next sizes
+        for t in range(15000):
+            recs.append({"kind": "derived", "layout": LAYOUT_NAMES[t % 3], "involved": rnd.sample(QUBITS, rnd.randint(4, 6))})
     # 3. subsets exhaustively: quick: every subset of size <= 4 (all layouts) as mask records; thorough: all 2^17 (mask ranges)
     ranges = []
     if thorough:
@@ -918,13 +922,15 @@ def enumerate_records(tier, seed):
             for lo in range(0, 1 << 17, step):
                 ranges.append((n, lo, lo + step))
     else:
+        cnt = 0
         for k in range(0, 5):
             for comb in itertools.combinations(range(17), k):
                 mask = sum(1 << b for b in comb)
-                for n in LAYOUT_NAMES:
+                cnt += 1
+                for n in (LAYOUT_NAMES if k <= 3 else [LAYOUT_NAMES[cnt % 3]]):
                     recs.append(rec_from_mask(n, mask, seed))
     # 4. random subsets / orderings of the larger sizes
-    for t in range(20000 if thorough else 2400):
+    for t in range(8000 if thorough else 1500):
         k = rnd.randint(5, 17)
         sub = rnd.sample(QUBITS, k)
         rec = {"kind": "derived", "layout": LAYOUT_NAMES[t % 3], "involved": sub}
@@ -938,7 +944,7 @@ def enumerate_records(tier, seed):
             for w in chain_windows(chain, 2):
                 if thorough or (len(w) % 2 == 1 and w[0][0] == 'D' and len(w) <= 9) or len(w) == len(chain):
                     bases.append((n, list(w)))
-        for _ in range(150 if thorough else 25):
+        for _ in range(50 if thorough else 25):
             bases.append((n, rnd.sample(QUBITS, rnd.randint(3, 17))))
     for n, b in bases:
         recs.extend(composite_records(n, b, rnd, thorough, src[n]))
@@ -1016,8 +1022,9 @@ STAND_INS = {
     "layout": ("Repetition9Code / Repetition9Round6Code / Repetition5Round4Code layer tables; GenericSurfaceCode and GateSequenceLayer accessors",
                "[all four executability clauses on the SHIPPED layouts] every gate is a device edge, gates of a layer on pairwise distinct qubits, "
                "parked and gated disjoint, required parks (own oracle) subset of declared parks, every ancilla-data edge of every parity group "
-               "exactly once per sequence; accessors (get_gate_sequence_at_index / from_element in both orientations / involved_qubit_ids / "
-               "qubit_ids / edge_ids) equal the raw tables",
+               "exactly once per sequence -- on the raw tables and on the layers published by gate_sequence_count / get_gate_sequence_at_index "
+               "(same multiset of layers); get_gate_sequence_from_element finds a layer playing the edge for either orientation; "
+               "involved_qubit_ids / qubit_ids / edge_ids equal the raw tables as sets",
                "complete: 3 layouts, 18 layers, 48 gates, 61 parks, 20 parity groups"),
     "derived": ("RepetitionCodeDescription.from_connectivity + IRepetitionCodeDescription.get_gate_sequence_indices / get_park_sequence_indices / "
                 "circuit_channel_map / map_qubit_id_to_circuit_index / get_element",
@@ -1035,19 +1042,24 @@ STAND_INS = {
 def run(tier, seed, out):
     res = common.Result(PROP)
     t0 = time.time()
-    budget = 540.0 if tier == "thorough" else 50.0
+    budget = float(os.environ.get("C17_BUDGET_S", 500.0 if tier == "thorough" else 50.0))   # wall budget for submitting work
     lib()
     for n in LAYOUT_NAMES:   # instantiate singletons before forking
         get_layout(n)
     recs, ranges = enumerate_records(tier, seed)
     fixed = [r for r in recs if r["kind"] not in ("derived", "composite")]
-    rest = [r for r in recs if r["kind"] in ("derived", "composite")]
-    # interleave expensive (composite) and cheap records so chunks are balanced
-    rnd = random.Random(seed + 1)
-    rnd.shuffle(rest)
-    chunk = 120
+    der = [r for r in recs if r["kind"] == "derived"]
+    comp = [r for r in recs if r["kind"] == "composite"]      # kept in generation order: grouped by base (worker-side cache)
+    rest = der + comp
+    random.Random(seed + 1).shuffle(der)
     jobs = [("recs", fixed[i:i + 1], seed) for i in range(len(fixed))]
-    jobs += [("recs", rest[i:i + chunk], seed) for i in range(0, len(rest), chunk)]
+    jd = [("recs", der[i:i + 300], seed) for i in range(0, len(der), 300)]
+    jc = [("recs", comp[i:i + 60], seed) for i in range(0, len(comp), 60)]
+    while jd or jc:       # interleave the two job streams
+        if jc:
+            jobs.append(jc.pop(0))
+        if jd:
+            jobs.append(jd.pop(0))
     jobs += [("range", r, seed) for r in ranges]
     nproc = min(16, os.cpu_count() or 1)
     counts, fails, nontriv, n_inputs, by_kind = {}, {}, set(), 0, {}
@@ -1057,7 +1069,7 @@ def run(tier, seed, out):
         pending, it = [], iter(jobs)
         exhausted = False
         while True:
-            while not exhausted and len(pending) < 3 * nproc:
+            while not exhausted and len(pending) < 2 * nproc:
                 if time.time() - t0 > budget:
                     rest_jobs = list(it)
                     skipped_jobs = len(rest_jobs)
@@ -1088,19 +1100,24 @@ def run(tier, seed, out):
     res.evaluations = sum(counts.values())
     res.distinct = nontriv
     res.exhaustive = skipped_jobs == 0
-    k_ord = 4 if tier == "thorough" else 3
+    k_ord = 3
     sub_bound = "ALL 2^17 subsets of the 17 chip qubits x 3 layouts (pseudo-random order per subset, every third with a supplied index map)" \
-        if tier == "thorough" else "all subsets of size <= 4 of the 17 chip qubits x 3 layouts (pseudo-random order per subset)"
-    res.rule = ("Inputs: (i) the device tables of Surface17Layer and the three shipped repetition layouts, complete; (ii) from_connectivity on: "
-                "every contiguous window of the 17-qubit chain and of the 9-qubit chain, both directions, x 3 layouts; every ORDERED tuple of "
-                "distinct chip qubits up to size %d (all layouts for size <= 2, rotating layout above); %s; seeded random subsets/orderings of "
-                "size 5..17; default and supplied injective index maps; (iii) CompositeRepetitionCodeDescription over chain windows and random "
-                "subsets with: no exclusion, each kept gate edge excluded singly (either orientation), each involved qubit excluded singly, random "
-                "mixtures (<= 3 edges, <= 2 qubits, readout/rotation noise), leading gate/readout descriptions, with static and "
-                "only-required parking. An input is NON-TRIVIAL if at least one gate survives the involved-qubit filter (derived), resp. at least "
-                "one gate is removed by an exclusion or a leading gate description is set (composite); table inputs always are. Involved lists "
-                "are duplicate-free subsets of the chip's qubits (the statement's quantifier); the stated space is %s."
-                % (k_ord, sub_bound, "enumerated completely" if res.exhaustive else "NOT completed (time budget), see skipped"))
+        if tier == "thorough" else "all subsets of size <= 3 of the 17 chip qubits x 3 layouts and all subsets of size 4 x 1 layout (rotating), " \
+                                   "pseudo-random order per subset"
+    res.rule = ("FINITE SPACE (enumerated completely iff exhaustive=true): (i) the device tables of Surface17Layer and the three shipped "
+                "repetition layouts; (ii) from_connectivity on every contiguous window of the 17-qubit chain and of the 9-qubit chain, both "
+                "directions, x 3 layouts; on every ORDERED tuple of distinct chip qubits up to size %d (all layouts for size <= 2, rotating "
+                "layout for size 3); on %s; (iii) CompositeRepetitionCodeDescription over %s with: no exclusion, each kept gate edge excluded "
+                "singly, each involved qubit excluded singly, always with inherited (static) parking and -- thorough: for every edge and a "
+                "seeded half of the qubits, quick: for a seeded third -- also with only-required parking.  ADDITIONAL seeded samples (not exhaustive): "
+                "random subsets/orderings of size 5..17 (thorough: also 4..6) with default and supplied injective index maps; composites over "
+                "random bases, random mixtures of exclusions (<= 3 edges in random orientation, <= 2 qubits, readout/rotation exclusions as "
+                "noise), leading gate / readout descriptions.  An input is NON-TRIVIAL if at least one gate survives the involved-qubit filter "
+                "(derived), resp. at least one gate is removed by an exclusion or a leading gate description is set (composite); table inputs "
+                "always are.  Involved lists are duplicate-free subsets of the chip's 17 qubits (the statement's quantifier).  %s"
+                % (k_ord, sub_bound,
+                   "every chain window of length >= 2" if tier == "thorough" else "the odd-length data-to-data chain windows up to 9 qubits and the full chains",
+                   "" if res.exhaustive else "NOT completed: the time budget was reached, see 'skipped'."))
     bounds = {"derived": "%d inputs (%s)" % (by_kind.get("derived", 0), "chain windows + ordered tuples <= %d + %s + random" % (k_ord, sub_bound)),
               "composite": "%d inputs over chain windows / random bases, single + mixed exclusions, both parking modes" % by_kind.get("composite", 0)}
     for k, (fn, contract, bound) in STAND_INS.items():
@@ -1154,7 +1171,7 @@ def probe_display_coords():
 def replay(path):
     rec, args = common.load_replay(path)
     args = dict(args)
-    key = args.pop("key", None) or rec.get("key")
+    key = args.pop("key", None) or rec.get("key") or rec.get("id") or rec.get("obligation")
     lib()
     ev = evaluate(args)
     keys = [f["key"] for f in ev.fails]
